@@ -37,8 +37,8 @@ RULE = (
     "view_box, tolerance, tostring, toetree, checkpicosvg, depth_first).  After a copying step the history continues "
     "on the returned object; the receiver is kept and re-checked at the end.  exh: every history of length <= 2 "
     "over all 74 step variants x the 6 fixed documents plus every history of length 3 over one variant per "
-    "operation (50 steps) x the 6 documents (thorough); quick: length <= 2 over all 74 variants on 2 documents and "
-    "over the 50 core variants on the other 4; hist: Hypothesis histories of 1..8 steps with arguments drawn from pools "
+    "operation (48 steps: toetree and depth_first left to the length-2 part) x the 6 documents (thorough); quick: length <= 2 over all 74 variants on 2 documents and "
+    "over the 48 core variants on the other 4; hist: Hypothesis histories of 1..8 steps with arguments drawn from pools "
     "(attribute pairs, names, 5 xpaths).  Non-trivial = some step that is not a pure root-attribute query "
     "(view_box, tolerance) was executed while the shape cache of the receiving object was populated (observed: "
     "SVG.elements truthy at the start of the step), i.e. an edit/query filled the cache and a tree-level, copying, "
@@ -47,7 +47,7 @@ RULE = (
 ASSUMPTIONS = [
     "twin = SVG.fromstring(prev.tostring()) then the in-place form of the step; documents are compared as lxml C14N 2.0 strings (attribute order and unused namespace declarations are ignored)",
     "snapshot(svg) = SVG over a deep copy of svg_root whose cache entries point at the corresponding copied elements (copy.deepcopy of an SVG with pending edits cannot be serialised: lxml copies each cached element as a detached root); validated against the real tostring() at the end of every history (clause snapshot-unfaithful)",
-    "fenced: comments/PIs outside the root element (lost by tostring, so the twin legitimately differs), <use> cycles, non-xlink href, malformed numbers/viewBox",
+    "fenced: appending into a shape element (shapes have no children), comments/PIs outside the root element (lost by tostring, so the twin legitimately differs), <use> cycles, non-xlink href, malformed numbers/viewBox",
     "a step that raises the same exception type in the live run and in the twin is agreement (class both-raise:<type>); the history stops there",
     "an object whose steps all returned normally must serialise: tostring() raising is reported (clause unserialisable) because the object then has no serialisation to equal",
     "query values compared between live object and twin: view_box(), tolerance, checkpicosvg() (functions of the document only); shapes()/bounding_box() values are not compared",
@@ -158,7 +158,8 @@ def _variants_core():
     out.append(S("checkpicosvg_drop"))
     out.append(S("append_to", ("/svg:svg",)))
     for q in QUERIES:
-        out.append(S(q))
+        if q not in ("toetree", "depth_first"):  # toetree flushes exactly like tostring; depth_first only reads
+            out.append(S(q))
     return out
 
 
@@ -505,7 +506,7 @@ def _step_strategy():
         st.builds(lambda n, i: S("topicosvg", (n,), i), st.sampled_from([1, 3]), ip),
         st.builds(lambda p, x, i: S("set_attributes", (p, x), i), pairs, xp, ip),
         st.builds(lambda p, x, i: S("remove_attributes", (p, x), i), names, xp, ip),
-        st.builds(lambda x: S("append_to", (x,)), st.sampled_from(["/svg:svg", "/svg:svg", "(//svg:g)[1]", "/svg:svg/svg:*[1]"])),
+        st.builds(lambda x: S("append_to", (x,)), st.sampled_from(["/svg:svg", "/svg:svg", "(//svg:g)[1]", "(//svg:defs)[1]"])),
         st.just(S("checkpicosvg_drop")),
         st.sampled_from(QUERIES).map(S),
         st.sampled_from(QUERIES).map(S),
@@ -533,5 +534,5 @@ def describe(case):
 SHARDS = {"quick": 4, "thorough": 16}
 SUBCHECKS = {
     "exh": Sub("exh", check_case, enumerate=enum_hist, describe=describe),
-    "hist": Sub("hist", check_case, strategy=lambda ctx: history_case(), examples={"quick": 400, "thorough": 4000}, describe=describe),
+    "hist": Sub("hist", check_case, strategy=lambda ctx: history_case(), examples={"quick": 400, "thorough": 3000}, describe=describe),
 }
